@@ -216,15 +216,22 @@ ALPHA = ['b', 'd', 'f', 'h', 'j', 'l']
 PROBES = ['a', 'b', 'c', 'd', 'e', 'f', 'g', 'h', 'i', 'j', 'k', 'l', 'm']
 
 
+ALPHA_CASE = ['B', 'd', 'F', 'h', 'J', 'l']       # capitals sort before small letters
+
+
 def sorted_list_probes():
     n = 0
     viol = []
-    for k in range(len(ALPHA) + 1):
-        for sub in itertools.combinations(ALPHA, k):
-            for order in (sub, tuple(reversed(sub))):
-                sl = SortedList()
-                for x in order:
-                    sl.add(x)
+    for alpha in (ALPHA, ALPHA_CASE):
+      for k in range(len(alpha) + 1):
+        for sub in itertools.combinations(alpha, k):
+            for order, how in ((sub, 'add'), (tuple(reversed(sub)), 'add'), (tuple(reversed(sub)), 'init')):
+                if how == 'init':
+                    sl = SortedList(list(order))      # built from an iterable, as the group/location name lists are
+                else:
+                    sl = SortedList()
+                    for x in order:
+                        sl.add(x)
                 if list(sl) != sorted(sub):
                     viol.append(('sortedlist-add-not-sorted', (order, list(sl))))
                 for p in PROBES:
